@@ -1,3 +1,4 @@
+import SSVerif.Model.AlignVec
 /-!
 # M15 — protocol automaton and ownership ledger of the public decoder API (C09)
 
@@ -112,8 +113,11 @@ structure ApiState where
   iters : List Iter := []
   /-- lattice references taken with `lattice_retain`: (slot, lattice object) -/
   lats : List (Nat × Nat) := []
-  /-- alignment references taken with `alignment_retain` (slot numbers) -/
+  /-- alignment references taken with `alignment_retain` or created with `alignment_init` (slot numbers) -/
   alns : List Nat := []
+  /-- of those, the alignments the user builds himself (`alignment_init` + `alignment_add_word` +
+  `alignment_populate`): the entry counters of their three levels -/
+  built : List (Nat × AlignVec.UAlign) := []
   deriving DecidableEq, Repr
 
 /-- return classes: 0 / <0 / NULL / non-NULL / a count ≥ 0 / the new reference count / no value /
@@ -170,6 +174,12 @@ inductive Call
   | lnode (id : Nat) (src : LatSrc) (e ei : Bool) | lnodeNext (id : Nat) (last : Bool) | lnodeFree (id : Nat)
   | llink (dst src : Nat) (e : Bool) | llinkNext (id : Nat) (last : Bool) | llinkFree (id : Nat)
   | align (reuse r a : Bool) | alRetain (k : Nat) (reuse r a : Bool) | alFree (k : Nat)
+  /-- `alignment_init(d->d2p)` into slot `k` -/
+  | alBuild (k : Nat)
+  /-- `n` × `alignment_add_word` of a word with `plen` phones; returns how many were accepted -/
+  | alAdd (k n plen : Nat)
+  /-- `alignment_populate` / `_populate_ci` with `emit` states per phone -/
+  | alPop (k emit : Nat)
   | alIter (id : Nat) (src : AlSrc) (reuse r a e : Bool) | aliNext (id : Nat) (last : Bool)
   | aliChild (dst src : Nat) (e : Bool) | aliGoto (id : Nat) (gone : Bool) | aliFree (id : Nat)
   | json (lvl : Nat) (reuse r a : Bool)
@@ -275,6 +285,10 @@ def latOf (s : ApiState) (src : LatSrc) (e : Bool) : ApiState × Option Nat :=
 def latSrcOk (s : ApiState) : LatSrc → Bool
   | .dec => s.refs != 0
   | .user k => (latObj s.lats k).isSome
+
+def builtOf (l : List (Nat × AlignVec.UAlign)) (k : Nat) : Option AlignVec.UAlign := (l.find? (·.1 == k)).map (·.2)
+def setBuilt (l : List (Nat × AlignVec.UAlign)) (k : Nat) (u : AlignVec.UAlign) : List (Nat × AlignVec.UAlign) :=
+  (k, u) :: l.filter (·.1 != k)
 
 def ptrIf (b : Bool) : Ret := if b then .ptr else .null
 
@@ -387,8 +401,22 @@ def step (s : ApiState) (c : Call) : ApiState × Ret :=
     else (s, .oop)
   | .alFree k =>
     if k ∈ s.alns then
-      ({ s with alns := s.alns.filter (· != k), iters := invalidate (isAliU k) s.iters }, .void)
+      ({ s with alns := s.alns.filter (· != k), built := s.built.filter (·.1 != k),
+                iters := invalidate (isAliU k) s.iters }, .void)
     else (s, .oop)
+  | .alAdd k n plen =>
+    -- ps_alignment.c:114-128: the word level grows entry by entry until `vector_grow_one` refuses
+    match builtOf s.built k with
+    | some u =>
+      ({ s with built := setBuilt s.built k (u.addWords n plen).1, iters := invalidate (isAliU k) s.iters }, .count)
+    | none => (s, .oop)
+  | .alPop k emit =>
+    -- ps_alignment.c:131-248: −1 as soon as a phone or state entry is refused
+    match builtOf s.built k with
+    | some u =>
+      ({ s with built := setBuilt s.built k (u.populate emit).1, iters := invalidate (isAliU k) s.iters },
+       if (u.populate emit).2 then .ok else .err)
+    | none => (s, .oop)
   | .alIter id (.user k) _ _ _ e =>
     if k ∈ s.alns ∧ findIter s.iters id = none then
       if e then ({ s with iters := { id := id, kind := .aliU k, valid := true } :: s.iters }, .ptr) else (s, .null)
@@ -490,6 +518,9 @@ def step (s : ApiState) (c : Call) : ApiState × Ret :=
       if r.2 && eHyp then
         ({ r.1 with iters := { id := id, kind := .hyp, valid := true } :: r.1.iters }, .ptr)
       else (r.1, .null)
+    | .alBuild k =>
+      if k ∈ s.alns then (s, .oop)
+      else ({ s with alns := k :: s.alns, built := setBuilt s.built k {} }, .ptr)
     | .align ru r a => let x := alignStep s ru r a; (x.1, ptrIf x.2)
     | .alRetain k ru r a =>
       if k ∈ s.alns then (s, .oop) else
@@ -621,6 +652,7 @@ def docClass : Call → List Ret
   | .latTrav _ _ => [.count, .null]
   | .latPrune _ _ _ => [.count, .null]
   | .lnodeFree _ => [.void] | .llinkFree _ => [.void]
+  | .alBuild _ => [.ptr] | .alAdd _ _ _ => [.count] | .alPop _ _ => [.ok, .err]
   | .retain => [.ptr]
   | .free => []          -- the new reference count, see `isDoc`
   | .start => [.ok, .err]
